@@ -155,6 +155,25 @@ Definition log_aof (s : server) (parts : list frame) : server :=
   {| s_dbs := s_dbs s; s_trk := s_trk s; s_conns := s_conns s;
      s_password := s_password s; s_aof := parts :: s_aof s; s_pubsub := s_pubsub s |}.
 
+(** AofEngine::append_command(command, db) after the repair 7ef6fad: the engine remembers the
+    database of the last command it wrote (None until the first append of a process) and writes
+    `SELECT <db>` before a command that ran in another one.  The remembered database is read
+    off the log: no client SELECT is ever appended (SELECT is not a write command), so the most
+    recent SELECT record is the engine's; [aof_boundary] (an empty entry, no bytes in the file)
+    marks a restart of the process, where the engine forgets. *)
+Definition aof_boundary : list frame := [].
+Definition aof_select (dbi : Z) : list frame := [FBulk (bs "SELECT"); FBulk (print_int dbi)].
+Fixpoint aof_last_db (log : list (list frame)) : option Z :=
+  match log with
+  | [] => None
+  | [] :: _ => None
+  | [FBulk n; FBulk a] :: r => if beq n (bs "SELECT") then parse_usize a else aof_last_db r
+  | _ :: r => aof_last_db r
+  end.
+Definition same_db (o : option Z) (dbi : Z) : bool := match o with Some n => n =? dbi | None => false end.
+Definition log_aof_in (s : server) (dbi : Z) (parts : list frame) : server :=
+  log_aof (if same_db (aof_last_db (s_aof s)) dbi then s else log_aof s (aof_select dbi)) parts.
+
 (** a new connection is Authenticated at once when no password is configured (server.rs:443-448) *)
 Definition connect (s : server) (c : Z) : server :=
   set_conn s c (new_conn (match s_password s with None => true | Some _ => false end)).
@@ -252,8 +271,8 @@ Definition dispatch_command (now : Z) (s : server) (c : Z) (dbi : Z) (parts : li
   match parts with
   | FBulk nm :: _ =>
       let name := upper nm in
-      (* AOF: appended before dispatch whenever the name is a write command *)
-      let s := if mem_name name write_commands then log_aof s parts else s in
+      (* AOF: appended before dispatch whenever the name is a write command, with the database it runs in *)
+      let s := if mem_name name write_commands then log_aof_in s dbi parts else s in
       if beq name (bs "PING") then
         (match parts with _ :: a :: _ => a | _ => FSimple (bs "PONG") end, s)
       else if beq name (bs "ECHO") then
